@@ -210,7 +210,37 @@ fn run_value_stack(case: &Case) -> Outcome {
                 next += 1;
                 let v = Value::Integer(next);
                 let len = model.len();
+                // raw indices 36.. address slots relative to the height: at it, above it, the top
+                let i = &match *i {
+                    36..=39 => len,
+                    40 | 41 => len + 1,
+                    42 | 43 => len.saturating_sub(1),
+                    r => r,
+                };
+                // "a write at the current height pushes": a twin stack with the same contents
+                // says what push does in this state
+                let twin_push_ok = if *i == len {
+                    let mut twin = ValueStack::new(cap);
+                    if model.iter().all(|m| twin.push(*m).is_ok()) {
+                        Some(twin.push(v).is_ok())
+                    } else {
+                        None
+                    }
+                } else {
+                    None
+                };
                 let r = st.set(*i, v);
+                if let (Some(p), true) = (twin_push_ok, *i == len) {
+                    if p != r.is_ok() {
+                        fail!(step, "set", "set_at_height_is_push", "len={} cap={}: push on a stack with the same contents {} but set at the height {}", len, cap, if p { "succeeds" } else { "fails" }, if r.is_ok() { "succeeds" } else { "fails" });
+                    }
+                    if let Ok(old) = &r {
+                        // the slot at the height holds no value (a read there is nil)
+                        if !veq(*old, Value::Nil) {
+                            fail!(step, "set", "set_returns_old", "set at the height returned {} as the old value of an unused slot", vs(*old));
+                        }
+                    }
+                }
                 if *i > len {
                     if r.is_ok() {
                         fail!(step, "set", "set_beyond_height_rejected", "set({}) with len {} returned Ok", i, len);
